@@ -30,7 +30,7 @@ TRUST = ["C01 statement oracle: lengths = sum round(d_i*SR) from the generator's
 
 def generate(rng, tier):
     n = 160 if tier == "quick" else 5000
-    n_long = 5 if tier == "quick" else 40
+    n_long = 9 if tier == "quick" else 60
     for ci in range(n + n_long):
         malformed = rng.random() < 0.15
         if ci >= n:
